@@ -561,7 +561,7 @@ class RefModule:
         if self.kind != "network":
             raise Reject("not a network")
         if len(pre_nodes) != len(post_nodes):
-            raise Unspec("pre/post of different length")
+            raise Reject("pre/post of different length")  # must be refused and leave nothing behind (F29)
         names = [s["name"] for s in self.syns]
         if syn["name"] in names:
             old = self.syns[names.index(syn["name"])]
@@ -586,11 +586,11 @@ class RefModule:
         if self.kind == "cell" and len(branches) == len(self.ncomp_per_branch):
             raise Reject("all branches of a cell")
         if len(branches) != 1:
-            raise Unspec("set_ncomp on several branches")
+            raise Reject("set_ncomp on several branches")  # must be refused (F28): the code treats the view as one branch
         b = branches[0]
         rows = [x for x in range(self.n) if self.branch[x] == b]
-        if list(rv.N) != rows:
-            raise Unspec("set_ncomp on part of a branch")
+        if sorted(rv.N) != rows:
+            raise Reject("set_ncomp on part of a branch")
         for key in ["length", "capacitance", "axial_resistivity"] + ([] if self.swc else ["radius"]):
             if len(set(self.cols[key][r] for r in rows)) != 1:
                 raise Reject(f"non-uniform {key}")
